@@ -1139,7 +1139,13 @@ package server
 //@   modifies all
 // flushing acknowledges waiting requests through the lock engine and rotation rewrites files: both are
 // outside the ordering argument of PushLock and are cut here
+// C11: the leader's own log write counts as one acknowledgement: it is positive only when both the record file and the
+// value file took every byte of this flush; a write error on either reports every pending record as failed
 //@ func (*AofFile).Flush
+//@   requires self != nil
+//@   at call lockAcked#1 assert C11.flush.verdict: arg2 == true
+//@   at call lockAcked#2 assert C11.flush.verdict: arg2 == false && !isnil(err)
+//@   at call lockAcked#3 assert C11.flush.verdict: arg2 == false && !isnil(err)
 //@   modifies all
 //@ func (*Aof).RewriteAofFile
 //@   modifies all
